@@ -620,19 +620,19 @@ package spec
 //@ axiom forall u string :: docOK(u) ==> docOf(u) == jsonValue(loaderBytes(u))
 
 //@ func (*schemaLoader).load
-//@   property C18, C11, C05
+//@   property C18, C11, C05, C12
 //@   requires wfResolver(r) && refURL != nil
 //@   requires [C18] key-in-reference-canonical-form @@ normHost(refURL.Scheme, refURL.Host) == refURL.Host && dedupSlashes(refURL.Path) == refURL.Path
 //@   assigns  ghost(cacheDom, cacheDoc, calls)
-//@   ensures  [C18] lookup-first @@ old(cacheDom[loadKey(refURL)]) ==> result3 == nil && result2 && result0 == old(cacheDoc[loadKey(refURL)])
-//@   ensures  [C18] never-requested-if-present @@ forall u string :: calls(r.context.loadDoc, u) == old(calls(r.context.loadDoc, u)) + (u == loadKey(refURL) && !old(cacheDom[loadKey(refURL)]) ? 1 : 0)
+//@   ensures  [C18,C12] lookup-first @@ old(cacheDom[loadKey(refURL)]) ==> result3 == nil && result2 && result0 == old(cacheDoc[loadKey(refURL)])
+//@   ensures  [C18,C12] never-requested-if-present @@ forall u string :: calls(r.context.loadDoc, u) == old(calls(r.context.loadDoc, u)) + (u == loadKey(refURL) && !old(cacheDom[loadKey(refURL)]) ? 1 : 0)
 //@   ensures  [C18] stored @@ !old(cacheDom[loadKey(refURL)]) && docOK(loadKey(refURL)) ==> result3 == nil && result0 == docOf(loadKey(refURL)) && cacheDom[loadKey(refURL)] && cacheDoc[loadKey(refURL)] == docOf(loadKey(refURL))
 //@   ensures  [C18] failed-not-stored @@ !old(cacheDom[loadKey(refURL)]) && !docOK(loadKey(refURL)) ==> result3 != nil && cacheDom == old(cacheDom) && cacheDoc == old(cacheDoc)
 //@   ensures  [C18] cache-monotone @@ forall u string :: old(cacheDom[u]) ==> cacheDom[u] && cacheDoc[u] == old(cacheDoc[u])
 //@   ensures  [C18] only-key-written @@ forall u string :: u != loadKey(refURL) ==> cacheDom[u] == old(cacheDom[u]) && cacheDoc[u] == old(cacheDoc[u])
 //@   ensures  [C05] error-nil-doc @@ result3 != nil ==> result0 == nil
 //@   ensures  [C05] doc-not-typed-nil @@ !typedNil(result0)
-//@   ensures  [C11] loader-key-canonical @@ forall u string :: calls(r.context.loadDoc, u) > old(calls(r.context.loadDoc, u)) && cwdAvailable() ==> canonicalURL(u)
+//@   ensures  [C11,C12] loader-key-canonical @@ forall u string :: calls(r.context.loadDoc, u) > old(calls(r.context.loadDoc, u)) && cwdAvailable() ==> canonicalURL(u)
 //@   ensures  [C05] error-iff-missing @@ (result3 != nil) == (!old(cacheDom[loadKey(refURL)]) && !docOK(loadKey(refURL)))
 
 // ---- dependencies used by resolveRef
@@ -1011,7 +1011,7 @@ package spec
 //@ define scopeOf(id string, basePath string) string = id != "" ? normURI((hasSuffix(id, "/") ? id + "placeholder.json" : id), basePath) : basePath
 //@ func expandSchema
 //@   strings  uninterpreted
-//@   call denormalizeRef 0 requires [C02,C03,C09] rewrites-a-reference-in-absolute-form @@ arg_ref != nil && arg_ref.referenceURL != nil && arg_ref.referenceURL.Scheme != ""
+//@   call denormalizeRef 0 requires [C02,C03,C09] rewrites-a-reference-in-absolute-form @@ arg_ref != nil && arg_ref.referenceURL != nil && arg_ref.referenceURL.Scheme != "" && arg_originalRelativeBase == resolver.context.basePath && arg_id == resolver.context.rootID
 //@   keeps    [C02] piLeft, piLeftLocal, piRes, piHome, prLeft, prLeftLocal, prRes, prHome
 //@   property C04, C08, C03, C18
 //@   defines  result1 == nil ==> esDone[skey(*result0)]
@@ -1133,7 +1133,7 @@ package spec
 
 //@ func expandSchemaRef
 //@   strings  uninterpreted
-//@   call denormalizeRef 0 requires [C02,C03] rewrites-a-reference-in-absolute-form @@ arg_ref != nil && arg_ref.referenceURL != nil && arg_ref.referenceURL.Scheme != ""
+//@   call denormalizeRef 0 requires [C02,C03] rewrites-a-reference-in-absolute-form @@ arg_ref != nil && arg_ref.referenceURL != nil && arg_ref.referenceURL.Scheme != "" && arg_originalRelativeBase == resolver.context.basePath && arg_id == resolver.context.rootID
 //@   ret 2 ensures [C08] unresolved-ref-left-verbatim @@ *result0 == target
 //@   call expandSchema 0 requires [C08] descends-only-after-a-successful-resolve @@ failures == old(failures)
 //@   call expandSchema 0 requires [C02] target-in-its-document-scope @@ hopScopeRaw(arg_resolver, arg_basePath, resolver, basePath, refStringV(target.Ref), refLocalV(target.Ref))
@@ -1188,7 +1188,7 @@ package spec
 
 //@ func expandParameterOrResponse
 //@   strings  uninterpreted
-//@   call denormalizeRef 0 requires [C02,C03] rewrites-a-reference-in-absolute-form @@ arg_ref != nil && arg_ref.referenceURL != nil && arg_ref.referenceURL.Scheme != ""
+//@   call denormalizeRef 0 requires [C02,C03] rewrites-a-reference-in-absolute-form @@ arg_ref != nil && arg_ref.referenceURL != nil && arg_ref.referenceURL.Scheme != "" && arg_originalRelativeBase == resolver.context.basePath && arg_id == resolver.context.rootID
 //@   keeps    [C02] piLeft, piLeftLocal, piRes, piHome
 //@   call expandSchema 0 requires [C02] schema-in-holder-scope @@ payload(input) != nil ==> inScope(arg_resolver, arg_basePath, prRes, prHome, prLeft, prLeftLocal)
 //@   property C04, C08, C03, C18
@@ -1390,6 +1390,7 @@ package spec
 //@   ensures  [C08] no-spurious-error @@ result != nil ==> failures > old(failures)
 
 //@ func ExpandResponse
+//@   call expandParameterOrResponse 0 requires [C11,C10] walk-starts-from-the-loaders-normalised-base @@ arg_basePath == arg_resolver.options.RelativeBase
 //@   strings  uninterpreted
 //@   property C04, C08, C10
 //@   assumes  [C04] root-location-wellformed @@ basePath != "" ==> canonBase(normBase(basePath))
@@ -1398,6 +1399,7 @@ package spec
 //@   ensures  [C08] no-spurious-error @@ result != nil ==> failures > old(failures)
 
 //@ func ExpandParameter
+//@   call expandParameterOrResponse 0 requires [C11,C10] walk-starts-from-the-loaders-normalised-base @@ arg_basePath == arg_resolver.options.RelativeBase
 //@   strings  uninterpreted
 //@   property C04, C08, C10
 //@   assumes  [C04] root-location-wellformed @@ basePath != "" ==> canonBase(normBase(basePath))
@@ -1934,19 +1936,29 @@ package spec
 //@   ensures  [C07] decoded-never-null @@ result != nil ==> jv(result) != jNull()
 //@   excluding decoded-never-null @@ jbyte0(data) == 123 || jbyte0(data) == 91
 
+// the items keyword keeps its form: an array text decodes and re-encodes as that array, an object text as that object
+// (given the round trip of the element kind, the induction hypothesis)
+//@ func verifLemmaSchemaOrArrayRoundTrip
+//@   property C01, C19
+//@   requires jWF(data) && len(data) > 1
+//@   requires jIsArr(jv(data)) ==> decOKOf("[]Schema", jv(data)) && encOKOf(decOf("[]Schema", jv(data))) && encOf(decOf("[]Schema", jv(data))) == jv(data)
+//@   requires isObj(jv(data)) ==> decOKOf("Schema", jv(data)) && encOKOf(decOf("Schema", jv(data))) && encOf(decOf("Schema", jv(data))) == jv(data)
+//@   ensures  [C01,C19] array-stays-that-array @@ result != nil && jIsArr(jv(data)) ==> jv(result) == jv(data)
+//@   ensures  [C01,C19] object-stays-that-object @@ result != nil && isObj(jv(data)) ==> jv(result) == jv(data)
+
 // ---- ordering of schema properties (C06)
 // (C07: encoding a decoded schema sorts its properties with this relation, so it must not panic for any pair of positions)
 //@ func verifLemmaLessTotal
 //@   property C06, C07
 //@   requires 0 <= i && i < len(items) && 0 <= j && j < len(items)
-//@   ensures  [C06] asymmetric @@ !(result0 && result1)
-//@   ensures  [C06] total-on-distinct-names @@ items[i].Name != items[j].Name ==> result0 || result1
-//@   ensures  [C06] irreflexive @@ i == j ==> !result0
+//@   ensures  [C06,C07] asymmetric @@ !(result0 && result1)
+//@   ensures  [C06,C07] total-on-distinct-names @@ items[i].Name != items[j].Name ==> result0 || result1
+//@   ensures  [C06,C07] irreflexive @@ i == j ==> !result0
 
 //@ func verifLemmaLessTransitive
 //@   property C06, C07
 //@   requires 0 <= i && i < len(items) && 0 <= j && j < len(items) && 0 <= k && k < len(items)
-//@   ensures  [C06] transitive @@ result0 && result1 ==> result2
+//@   ensures  [C06,C07] transitive @@ result0 && result1 ==> result2
 
 // ---- pointer lookups on typed values agree with their JSON form (C15)
 //@ specfn errText(error) string
@@ -2093,6 +2105,10 @@ package spec
 //@   ensures holds(v, "*gobAlias") && result == nil ==> (forall i int :: triggers(addr(asPtr(v, "*gobAlias").Security[i])) && (0 <= i && i < len(asPtr(v, "*gobAlias").Security) ==> freshObj(asPtr(v, "*gobAlias").Security[i])))
 //@   ensures holds(v, "*gobAlias") && result == nil ==> (forall i int, k string :: triggers(has(asPtr(v, "*gobAlias").Security[i], k)) && (0 <= i && i < len(asPtr(v, "*gobAlias").Security) ==>
 //@             has(asPtr(v, "*gobAlias").Security[i], k) == gobSecDom[streamOf(d)][i][k] && len(asPtr(v, "*gobAlias").Security[i][k].List) == gobSecLLen[streamOf(d)][i][k]))
+
+//@ func verifLemmaNewRefIdempotent
+//@   property C13
+//@   ensures  [C13] canonical-form-parses-back @@ result2 == nil ==> result3 == nil && refStringV(result1) == refStringV(result0)
 
 //@ func verifLemmaRefGob
 //@   property C13, C14
